@@ -6,6 +6,10 @@ rc=0
 for d in "$V"/seeded/*/; do
   n=$(basename "$d"); p=${n%%-*}
   out=$("$V/tools/try_seed.sh" "$d/patch.diff" "$p" 2>&1)
+  if grep -q '"caught_by": \[\s*"-"' "$d/meta.json" 2>/dev/null || python3 -c "import json,sys; sys.exit(0 if json.load(open('$d/meta.json'))['checks']['caught_by']==['-'] else 1)" 2>/dev/null; then
+    if echo "$out" | grep -q "^VIOLATION property=$p"; then echo "CAUGHT $n (was recorded as outside the decided clauses)"; else echo "NOT-CLAIMED $n (outside the decided clauses, see DESIGN 10)"; fi
+    continue
+  fi
   if echo "$out" | grep -q "^VIOLATION property=$p"; then
     rules=$(echo "$out" | grep -o " $p\.[A-Z][0-9a-z]* " | sort -u | tr -d '\n')
     echo "CAUGHT $n by$rules"
